@@ -1070,6 +1070,12 @@ class Ctx:
                 if nxt is None:
                     raise Unmodelled('fallthrough in %s %s' % (fn.name, bb))
                 bb = nxt
+        except Panic as e:
+            if not getattr(e, 'located', False):
+                e.located = True
+                e.site = (fn.name.split('>::')[-1], bb)
+                e.args = ('%s [in %s %s]' % (e.args[0] if e.args else '', fn.name.split('>::')[-1], bb),)
+            raise
         except Unmodelled as e:
             if not getattr(e, 'located', False):
                 e.located = True
